@@ -26,6 +26,7 @@ func init() {
 func runC14(c *Ctx) {
 	c.rule("O1", "retry.Do is always bounded (Attempts) and context-bound (Context from a context parameter); RetryIf also passes RetryIf(cond) and LastErrorOnly(true), bounds attempts by RetryMax, runs fn once when disabled and converts context errors", 5)
 	c.rule("O6", "every attempt tests the context before it calls the operation (retry-go only looks at the context while it waits between attempts)", 1)
+	c.rule("O7", "a value of a header is only taken from the list the header map holds where that list was found non-empty (or through Header.Get)", 1)
 	c.rule("O2", "a header-derived number multiplied into a time.Duration is clamped to [0, MaxInt64/multiplier] on every path", 1)
 	c.rule("O3", "the Apply siblings share the Retry-After prologue: consulted only under ConsiderRetryAfter, hint returned exactly when found", 3)
 	c.rule("O4", "fall-backs: constant → min; linear → LinearJitterBackoff(min,max,attempt,resp); exponential → max unless the wait is representable and ≤ max", 3)
@@ -35,6 +36,7 @@ func runC14(c *Ctx) {
 	c.c14Clamp()
 	c.c14Siblings()
 	c.c14Selection()
+	c.c14HeaderValues()
 }
 
 const retryGo = "github.com/avast/retry-go/v4."
@@ -146,25 +148,47 @@ func (c *Ctx) c14RetryDo() {
 		}
 	})
 	c.check(conv, "O1", fname(f)+"/result", c.ipos(do), "result of retry.Do reported through ConvertContextError", "the result of retry.Do is not returned through ConvertContextError: context errors are not reported as cancelled/timeout")
-	// disabled policy: fn() exactly once, its result returned
-	once := false
+	// disabled policy: one attempt, behind the same context gate, its result reported through ConvertContextError
+	once, why1 := false, "with a disabled policy the operation is not run exactly once"
+	nDisabled := 0
+	isEnabled := func(v ssa.Value) bool { _, ok := fieldLoad(v, "RetryPolicyConfiguration", "Enabled"); return ok }
 	allInstrs(f, func(in ssa.Instruction) {
 		cl, ok := in.(*ssa.Call)
-		if !ok || cl.Call.IsInvoke() || paramIndex(f, resolveValue(cl.Call.Value)) < 0 {
+		if !ok || cl.Call.IsInvoke() || !onBoolSide(cl, false, isEnabled) {
 			return
 		}
 		if _, isSig := cl.Call.Value.Type().Underlying().(*types.Signature); !isSig {
 			return
 		}
-		if onBoolSide(cl, false, func(v ssa.Value) bool { _, ok := fieldLoad(v, "RetryPolicyConfiguration", "Enabled"); return ok }) && !inLoop(cl) {
-			for _, r := range *cl.Referrers() {
-				if _, ok := r.(*ssa.Return); ok {
-					once = true
+		direct := paramIndex(f, resolveValue(cl.Call.Value)) >= 0
+		gatedCall := c14GatedAttempt(f, cl.Call.Value)
+		if !direct && !gatedCall {
+			return
+		}
+		nDisabled++
+		if inLoop(cl) {
+			why1 = "with a disabled policy the operation is run in a loop"
+			return
+		}
+		if !gatedCall {
+			why1 = "with a disabled policy the operation is called without a test of the context: it is attempted although the context is done"
+			return
+		}
+		// returned through ConvertContextError
+		for _, r := range *cl.Referrers() {
+			if cv, ok := r.(*ssa.Call); ok && calleeFull(&cv.Call) == ceConvCtx {
+				for _, rr := range *cv.Referrers() {
+					if _, ok := rr.(*ssa.Return); ok {
+						once = true
+					}
 				}
 			}
 		}
+		if !once {
+			why1 = "with a disabled policy the result of the operation is not reported through ConvertContextError: a context error it returns reaches the caller raw, not as cancelled/timeout"
+		}
 	})
-	c.check(once, "O1", fname(f)+"/disabled", c.pos(f.Pos()), "disabled policy: the operation runs exactly once and its result is returned", "with a disabled policy the operation is not run exactly once with its result returned")
+	c.check(once && nDisabled == 1, "O1", fname(f)+"/disabled", c.pos(f.Pos()), "disabled policy: one attempt behind the context gate, reported through ConvertContextError", why1)
 }
 
 // ---------------------------------------------------------------------------
@@ -707,4 +731,84 @@ func c14ConditionLiteral(f *ssa.Function, v ssa.Value) bool {
 		}
 	})
 	return good && n > 0
+}
+
+// c14HeaderValues (O7): "a Retry-After value on a 429/503 response replaces the wait exactly when that is enabled" — for any
+// response. http.Header maps a name to a list of values; a key can be present with an empty list (a response assembled by
+// a test double, a middleware that filtered the values). Indexing that list is only safe where its length was tested.
+func (c *Ctx) c14HeaderValues() {
+	n := 0
+	for _, f := range c.srcFuncs("http") {
+		allInstrs(f, func(in ssa.Instruction) {
+			ia, ok := in.(*ssa.IndexAddr)
+			if !ok {
+				return
+			}
+			// the list comes out of a map lookup
+			var list ssa.Value
+			switch x := ia.X.(type) {
+			case *ssa.Extract:
+				if lk, isL := x.Tuple.(*ssa.Lookup); isL && x.Index == 0 {
+					if _, isMap := lk.X.Type().Underlying().(*types.Map); isMap {
+						list = x
+					}
+				}
+			case *ssa.Lookup:
+				if _, isMap := x.X.Type().Underlying().(*types.Map); isMap {
+					list = x
+				}
+			}
+			if list == nil {
+				return
+			}
+			if _, isSlice := list.Type().Underlying().(*types.Slice); !isSlice {
+				return
+			}
+			n++
+			key := fname(outermost(f)) + "/header-value"
+			guarded := false
+			for _, b := range f.Blocks {
+				ifi, isIf := b.Instrs[len(b.Instrs)-1].(*ssa.If)
+				if !isIf || !(edgeDominates(b, 0, ia.Block()) || edgeDominates(b, 1, ia.Block())) {
+					continue
+				}
+				if c14TestsLen(ifi.Cond, list, 0) {
+					guarded = true
+				}
+			}
+			// a range loop over the list is a guard too
+			if inLoop(ia) {
+				if _, isConst := ia.Index.(*ssa.Const); !isConst {
+					guarded = true
+				}
+			}
+			c.check(guarded, "O7", key, c.ipos(ia), "the list of values was found non-empty before one is taken",
+				"a value is taken from the list the header map holds without a test of its length: a response whose header map has the key with no value (Header{\"Retry-After\": {}}) makes the back-off computation panic instead of falling back to the computed wait")
+		})
+	}
+	c.Extra["header_value_sites"] = n
+}
+
+func c14TestsLen(v ssa.Value, list ssa.Value, depth int) bool {
+	if depth > 6 {
+		return false
+	}
+	switch x := v.(type) {
+	case *ssa.BinOp:
+		for _, o := range []ssa.Value{x.X, x.Y} {
+			if cl, ok := o.(*ssa.Call); ok && calleeFull(&cl.Call) == "builtin.len" && cl.Call.Args[0] == list {
+				return true
+			}
+		}
+		return c14TestsLen(x.X, list, depth+1) || c14TestsLen(x.Y, list, depth+1)
+	case *ssa.UnOp:
+		return c14TestsLen(x.X, list, depth+1)
+	case *ssa.Phi:
+		for _, e := range x.Edges {
+			if c14TestsLen(e, list, depth+1) {
+				return true
+			}
+		}
+	}
+	return false
 }
